@@ -548,6 +548,11 @@ Context * Context::createChildRuntime(Context& root, uint8_t recursion) const
   assert(recursion > 0);
   Context * runtime = new Context(*this);
   runtime->_fctm = root._fctm;
+  /* the call belongs to the instance that makes it (which may be a clone of
+   * the one that parsed the function): its stop flag, its output streams */
+  runtime->_root = root._root;
+  runtime->_sout = root._sout;
+  runtime->_serr = root._serr;
   runtime->_recursion = recursion;
   /* copy table of symbols with new empty values */
   runtime->_storage_pool.reserve(_storage_pool.size());
